@@ -17,7 +17,8 @@ use serde_json::{json, Value};
 use std::collections::{BTreeMap, BTreeSet};
 use std::time::Instant;
 
-pub const CLASSES: [&str; 25] = [
+pub const CLASSES: [&str; 26] = [
+    "included:broken-template-used-anonymously",
     "missing:enoent-at-realpath",
     "missing:vanishes-after-realpath",
     "main:second-main-in-included-file",
@@ -87,6 +88,10 @@ fn render_world(p: &Project, style: &Style, style_seed: u64) -> World {
     p.render_with_layout(&mut Rng::new(style_seed), style).0
 }
 
+fn render_layout(p: &Project, style: &Style, style_seed: u64) -> gen::Layout {
+    p.render_with_layout(&mut Rng::new(style_seed), style).1
+}
+
 fn render_tokens(toks: &[String], style: &Style, style_seed: u64) -> String {
     render(toks, style, &mut Rng::new(style_seed).sub("tokens"))
 }
@@ -101,6 +106,8 @@ pub struct Planted {
     pub defs: Vec<(String, String)>,
     /// user-named paths (relative) that must have been read
     pub named: Vec<String>,
+    /// where the definitions are, when the planted world was rendered from a project
+    pub layout: Option<gen::Layout>,
 }
 
 fn simple_template(name: &str, body: &str) -> Def {
@@ -347,7 +354,7 @@ fn plant(b: &Base, class: &'static str, rng: &mut Rng) -> Option<Planted> {
             case.world = world;
             detail = text_main;
             let defs = planted_defs(&project);
-            return Some(Planted { class, detail, case, where_ok, defs, named });
+            return Some(Planted { class, detail, case, where_ok, defs, named, layout: None });
         }
         "params:duplicate-names" => {
             let d = if rng.chance(1, 2) {
@@ -428,6 +435,28 @@ fn plant(b: &Base, class: &'static str, rng: &mut Rng) -> Option<Planted> {
             }
             rerender = true;
         }
+        "included:broken-template-used-anonymously" => {
+            // the failure sits in a file that is only included (nothing has to be reported for
+            // it), but a template of a named file instantiates the broken template anonymously:
+            // that named template must still be analysed
+            let included: Vec<usize> = (0..p.files.len()).filter(|fi| !p.named.contains(fi)).collect();
+            if included.is_empty() || templates_in_target.is_empty() {
+                return None;
+            }
+            let inc = included[rng.usize(included.len())];
+            let inc_path = project.files[inc].path.clone();
+            let mut broken = simple_template("TpBroken", "signal input x ; signal output y ; var ( p , q ) = ( 1 , 2 , 3 ) ; y <== x ;");
+            broken.inputs = vec![gen::Port { name: "x".into(), dims: vec![] }];
+            broken.outputs = vec![gen::Port { name: "y".into(), dims: vec![] }];
+            project.files[inc].defs.push(broken);
+            if !project.files[target_fi].includes.iter().any(|i| i.trim_start_matches("./") == inc_path) {
+                project.files[target_fi].includes.push(inc_path.clone());
+            }
+            let di = templates_in_target[rng.usize(templates_in_target.len())];
+            project.files[target_fi].defs[di].body.push(raw("signal tpbz <== TpBroken ( ) ( 1 ) ;"));
+            detail = format!("TpBroken in (included only) {inc_path}, used by `{}`", project.files[target_fi].defs[di].name);
+            rerender = true;
+        }
         "main:second-main-in-included-file" => {
             // a leftover main in a file that is only included
             let included: Vec<usize> = (0..p.files.len()).filter(|fi| !p.named.contains(fi)).collect();
@@ -474,11 +503,16 @@ fn plant(b: &Base, class: &'static str, rng: &mut Rng) -> Option<Planted> {
         }
         _ => return None,
     }
+    let mut layout = None;
     if rerender {
         case.world = render_world(&project, &b.style, b.style_seed);
+        layout = Some(render_layout(&project, &b.style, b.style_seed));
+    } else if case.world == b.case.world {
+        // the disk is untouched (seam faults only): the base layout still holds
+        layout = Some(render_layout(&b.project, &b.style, b.style_seed));
     }
     let defs = planted_defs(&project);
-    Some(Planted { class, detail, case, where_ok, defs, named })
+    Some(Planted { class, detail, case, where_ok, defs, named, layout })
 }
 
 fn planted_defs(p: &Project) -> Vec<(String, String)> {
@@ -522,6 +556,37 @@ fn clean_verdict_justified(o: &Outcome, named: &[String], defs: &[(String, Strin
         let got = out.analyzing.iter().filter(|(k, n)| k == kind && n == name).count();
         if got < want {
             return Err(format!("`No issues found.` although {kind} `{name}` is defined {want} time(s) in the named files and was analysed {got} time(s)"));
+        }
+    }
+    Ok(())
+}
+
+/// No definition of a named file is dropped without a word: it is analysed, or an
+/// error-level report without location or located in its file is displayed.
+fn no_silent_drop(o: &Outcome, world: &World, layout: &gen::Layout, named: &[String], defs: &[(String, String)]) -> Result<(), String> {
+    let out = parse_stdout(&o.stdout);
+    let errors: Vec<Option<String>> = crate::findings::with_positions(&out, world)
+        .into_iter()
+        .filter(|n| n.severity == "error")
+        .map(|n| n.first.map(|(p, _)| p))
+        .collect();
+    if errors.iter().any(|e| e.is_none()) {
+        return Ok(()); // a file-level failure was reported
+    }
+    for (kind, name) in defs {
+        let want = defs.iter().filter(|(k, n)| k == kind && n == name).count();
+        let got = out.analyzing.iter().filter(|(k, n)| k == kind && n == name).count();
+        if got >= want {
+            continue;
+        }
+        // which named file holds it?
+        let file = named.iter().find(|f| layout.defs.get(*f).map(|v| v.iter().any(|d| &d.0 == kind && &d.1 == name)).unwrap_or(false));
+        let excused = match file {
+            Some(f) => errors.iter().flatten().any(|p| p.ends_with(f.as_str())),
+            None => true,
+        };
+        if !excused {
+            return Err(format!("{kind} `{name}` of a named file was analysed {got} time(s) (defined {want} time(s)) and no error-level report mentions its file"));
         }
     }
     Ok(())
@@ -623,6 +688,16 @@ fn one(runner: &Runner, seed: u64, i: usize, per_project: usize, sweep_class: Op
             json!({"kind": "C02", "class": "none", "seed": seed, "index": i, "case": b.case, "twin": b.case}),
         ));
     }
+    {
+        let layout = render_layout(&b.project, &b.style, b.style_seed);
+        if let Err(msg) = no_silent_drop(&twin, &b.case.world, &layout, &b.project.named_paths(), &b.project.named_defs()) {
+            res.violations.push((
+                "silently-dropped-definition:no-fault".into(),
+                msg,
+                json!({"kind": "C02", "class": "none", "seed": seed, "index": i, "case": b.case, "twin": b.case}),
+            ));
+        }
+    }
     let mut r = Rng::new(seed).sub_n("C02-plant", i as u64);
     for k in 0..per_project {
         let class = match sweep_class {
@@ -667,10 +742,17 @@ fn one(runner: &Runner, seed: u64, i: usize, per_project: usize, sweep_class: Op
         // a duplicate definition is not in the property's list of failures that must be
         // reported; it is judged by the converse clause only (a clean verdict although
         // one of the two definitions was never analysed)
-        let mut verdict = if class == "dup-def" { None } else { judge_planted(&twin, &b.case.world, &pl, &o) };
+        let mut verdict = if class == "dup-def" || class == "included:broken-template-used-anonymously" { None } else { judge_planted(&twin, &b.case.world, &pl, &o) };
         if verdict.is_none() {
             if let Err(msg) = clean_verdict_justified(&o, &pl.named, &pl.defs) {
                 verdict = Some((format!("unjustified-clean:{class}"), msg));
+            }
+        }
+        if verdict.is_none() {
+            if let Some(layout) = &pl.layout {
+                if let Err(msg) = no_silent_drop(&o, &pl.case.world, layout, &pl.named, &pl.defs) {
+                    verdict = Some((format!("silently-dropped-definition:{class}"), msg));
+                }
             }
         }
         if let Some((sig, detail)) = verdict {
@@ -789,8 +871,8 @@ pub fn replay(env: &Env, v: &Value) -> i32 {
     let named: Vec<String> = serde_json::from_value(v["named"].clone()).unwrap_or_default();
     let defs: Vec<(String, String)> = serde_json::from_value(v["defs"].clone()).unwrap_or_default();
     let cls: &'static str = CLASSES.iter().copied().find(|c| *c == class).unwrap_or("none");
-    let pl = Planted { class: cls, detail: String::new(), case: case.clone(), where_ok, defs, named };
-    let mut verdict = if cls == "none" || cls == "dup-def" { None } else { judge_planted(&ot, &twin.world, &pl, &o) };
+    let pl = Planted { class: cls, detail: String::new(), case: case.clone(), where_ok, defs, named, layout: None };
+    let mut verdict = if cls == "none" || cls == "dup-def" || cls == "included:broken-template-used-anonymously" { None } else { judge_planted(&ot, &twin.world, &pl, &o) };
     if verdict.is_none() {
         if let Err(m) = clean_verdict_justified(&o, &pl.named, &pl.defs) {
             verdict = Some(("unjustified-clean".into(), m));
